@@ -366,7 +366,10 @@ pub const TIMEOUT_S: u64 = 20;
 pub const ISOLATED_TIMEOUT_S: u64 = 4;
 /// Number of reference walks (summed over definitions and passes) from which a text is analysed in a process
 /// of its own.
-pub const GROWTH_LIMIT: u64 = 200_000;
+pub const GROWTH_LIMIT: u64 = 50_000;
+/// Seconds given to a text outside the growth classes that did not come back in `TIMEOUT_S` when it is tried
+/// again alone in a process of its own (a loaded machine must not look like non-termination).
+pub const RETRY_TIMEOUT_S: u64 = 180;
 
 fn names_at(v: &Value, key: &str, out: &mut Vec<String>) {
     // every `{key: {"value": name, ..}}` below v
@@ -540,8 +543,9 @@ pub fn observe_isolated(mode: &str, input: &str, tags: &[String]) -> Value {
         .stdout(std::process::Stdio::piped())
         .stderr(std::process::Stdio::null())
         .spawn();
-    // a text outside the growth classes gets the ordinary limit
-    let limit = if tags.is_empty() { TIMEOUT_S } else { ISOLATED_TIMEOUT_S };
+    // a text outside the growth classes gets the generous limit: it is either a first run of the
+    // definition-graph family or the second chance of a text that timed out in-process
+    let limit = if tags.is_empty() { RETRY_TIMEOUT_S } else { ISOLATED_TIMEOUT_S };
     let mut res = json!({"timeout": limit});
     if let Ok(mut c) = child {
         let t0 = std::time::Instant::now();
@@ -617,7 +621,8 @@ pub fn observe(input: &str) -> Value {
             }
             None => v,
         },
-        Err(_) => json!({"timeout": TIMEOUT_S}),
+        // second chance, alone in a process of its own and with a generous limit
+        Err(_) => observe_isolated("C12-child", input, &[]),
     }
 }
 
